@@ -1,7 +1,7 @@
 (* C07 / C09: the model never runs out of fuel (both worklists; the sort is total by C20). *)
 From Coq Require Import String Ascii.
 From Coq Require Import List Arith Lia Bool.
-Require Import TT.Model.Base TT.Model.Str TT.Model.C07TypeParse TT.Model.Harvest TT.Model.C07Worklist TT.Model.C07Reach TT.Model.Topo.
+Require Import TT.Model.Base TT.Model.Str TT.Model.C07TypeParse TT.Model.C07Harvest TT.Model.C07Worklist TT.Model.C07Reach TT.Model.Topo.
 Require Import TT.Spec.TsObs TT.Spec.C07Spec TT.Proofs.TopoProofs TT.Proofs.WorklistSpike TT.Proofs.C07Proofs TT.Proofs.C07Concrete TT.Proofs.C07Full.
 Import ListNotations.
 
@@ -101,9 +101,27 @@ Proof.
   - unfold missing. pose proof (filter_len (fun x => negb (C07Worklist.memb str_dec x (o S_USED [] (used_roots p)))) disc). lia.
 Qed.
 
+Lemma mapM_total {A B} (f : A -> option B) l : (forall x, In x l -> exists y, f x = Some y) -> exists ys, mapM f l = Some ys.
+Proof. induction l as [|a l IH]; intros H; simpl; [eauto|].
+  destruct (H a (or_introl eq_refl)) as (b & ->). destruct IH as (bs & ->); [intros; apply H; right; auto|]. eauto. Qed.
+
+Lemma closure_total disc e : discovered o p = Some disc -> exists cl, event_closure o p disc e = Some cl.
+Proof.
+  intros Hd. unfold discovered in Hd.
+  destruct (work_exact str str_dec _ _ _ (resolvable_indexed p) _ _ _ Hd) as [Hdn _].
+  unfold event_closure. cbv zeta.
+  destruct (nested str_dec (fields_ts o p) (fun n => smemb n disc) _ (o S_EVENT e (ts_of e)) [] _) as [u|] eqn:E; [simpl; eauto|].
+  exfalso. revert E.
+  apply (nested_total str str_dec (fields_ts o p) (fun n => smemb n disc) disc Hdn).
+  - intros x Hx. apply smemb_true; auto.
+  - unfold missing. pose proof (filter_len (fun x => negb (C07Worklist.memb str_dec x (o S_EVENT e (ts_of e)))) disc). lia.
+Qed.
+
 Theorem declared_total : exists decl, C07Reach.declared o p = Some decl.
 Proof. unfold C07Reach.declared. destruct discovered_total as (disc & Hd). rewrite Hd.
-  destruct (used_total disc Hd) as (used & Hu). rewrite Hu. eauto. Qed.
+  destruct (used_total disc Hd) as (used & Hu). rewrite Hu.
+  destruct (mapM_total (event_closure o p disc) (events p)) as (cls & Hc); [intros e _; apply closure_total; auto|].
+  rewrite Hc. eauto. Qed.
 
 Theorem emitted_zod_total : exists out, emitted_zod o p = Some out.
 Proof. unfold emitted_zod. destruct discovered_total as (disc & Hd). rewrite Hd.
